@@ -699,6 +699,10 @@ class Symx:
             if ob_.get('k') == 'Member' and ob_.get('name') == 'components' and ob_.get('base') is not None and strip(ob_['base']).get('k') == 'Ref' \
                     and str(strip(ob_['base']).get('ty', '')).replace('const ', '') in ('libphysica::Vector', 'libphysica::Matrix'):
                 name = self.lv_name(ob_['base'])     # the entries of a Vector/Matrix object are named like its subscript X[i]
+                bk_ = self.lv_key(ob_['base'])
+                bv_ = st.env.get(bk_) if bk_ is not None else None
+                if isinstance(bv_, Symbol):          # a parameter of an inlined callee bound to the caller's object
+                    name = bv_.name[4:] if bv_.name.startswith(('obj:', 'arr:')) else bv_.name
             if e['callee']['name'] in ('begin', 'cbegin'):
                 return name, Integer(0)
             key = self.lv_key(e['obj']) if strip(e['obj'])['k'] in ('Ref', 'Member') else None
@@ -814,6 +818,10 @@ class Symx:
                         objsym = ov
                 except Undecided:
                     pass
+            elif strip(obj)['k'] == 'Call':          # method of a temporary: the receiver is the term of the call that made it
+                ov = self.sym_or_name(obj, st)
+                if isinstance(ov, sp.Basic) and not (isinstance(ov, Symbol) and ov.name.startswith('expr:')):
+                    objsym = ov
             return Function('%s' % c['q'], real=True)(objsym, *a)
         a = [self.sym_or_name(x, st) for x in args]
         return Function('m:%s.%s' % (self.lv_name(obj), name), real=True)(*a)
